@@ -372,7 +372,11 @@ func (x *searcher) checkGC(s, n *State, o buildOpts, res *buildResult) {
 	// (4) twin continuation: every build from the post-GC state behaves as from the pre-GC state.
 	// Not compared when the index-preferred load saw a stale label set (a label re-created after
 	// it was dropped from the index is outside the property).
-	for _, t := range []string{tTop, tLeaf, tMid} {
+	twins := []string{tTop, tLeaf, tMid}
+	if s.V.Other {
+		twins = append(twins, tOther)
+	}
+	for _, t := range twins {
 		bo := buildOpts{Target: t}
 		with := x.runBuildFiles(mergeFiles(s.V.render(), artOf(res.After)), s.V, bo)
 		without := x.runBuildFiles(mergeFiles(s.V.render(), artOf(before)), s.V, bo)
@@ -384,7 +388,9 @@ func (x *searcher) checkGC(s, n *State, o buildOpts, res *buildResult) {
 		}
 		x.r.Outcome("executed_sets", "gc-twin:"+setString(with.Executed))
 		if setString(with.Executed) != setString(without.Executed) || es(with.RunErr) != es(without.RunErr) {
-			if o.PreferIndex && staleIndex(s) {
+			if o.PreferIndex && staleIndex(s) && (s.LoadV == nil || labelSet(*s.LoadV) != labelSet(s.V)) {
+				// the build files were edited since the project was last loaded in full: the index
+				// legitimately lags behind them
 				continue
 			}
 			bad("changes-next-build", fmt.Sprintf("build of %s executes {%s} after GC but {%s} without it", t, setString(with.Executed), setString(without.Executed)))
